@@ -6,7 +6,7 @@ From Coq Require Import ZArith List Bool String.
 From V Require Model.Date Model.Time.
 From V Require Model.Parsed.
 From V Require Import Base.Int Base.IO Base.Utf8 Model.Scan Model.DateTime Model.C11 Spec.Rfc2822 Judge.C11
-  Spec.Gregorian Proofs.C08Sweeps Proofs.C04 Proofs.Utf8 Proofs.Scan Proofs.C11 Proofs.C11Scan Proofs.C11Resolve Proofs.C11Reader Proofs.C11Write.
+  Spec.Gregorian Proofs.C08Sweeps Proofs.C04 Proofs.Utf8 Proofs.Scan Proofs.C11 Proofs.C11Scan Proofs.C11Resolve Proofs.C11Reader Proofs.C11Write Proofs.C11Roundtrip Proofs.C11RoundtripThm.
 Import ListNotations.
 Open Scope Z_scope.
 
@@ -120,3 +120,30 @@ Theorem C11_writer_panics : forall y o d t off, repr y o d -> time_ok t -> -8640
   to_rfc2822 (mk_dtz (mk_ndt d t) off) = Panic.
 Proof. exact writer_panics. Qed.
 Print Assumptions C11_writer_panics.
+
+(* roundtrip: for every date-time with a whole-minute offset, wall-clock year 0..9999 and a
+   leap-second field only on second 59, DateTime::parse_from_rfc2822(&dt.to_rfc2822()) is dt to whole
+   seconds: same UTC reading, the leap second preserved ([whole]: 10^9 iff the field is >= 10^9),
+   same offset *)
+Theorem C11_roundtrip : forall y o d t off, repr y o d -> time_ok t ->
+  (Time.tfrac t < 1000000000 \/ Time.tsecs t mod 60 = 59) ->
+  -86400 < off < 86400 -> off mod 60 = 0 ->
+  0 <= fst (yo_of_dn (wall_dn y o (Time.tsecs t) off)) <= 9999 ->
+  r2_rt (mk_dtz (mk_ndt d t) off) = enc5 (y, o, Time.tsecs t, whole (Time.tfrac t), off).
+Proof. exact roundtrip. Qed.
+Print Assumptions C11_roundtrip.
+Example C11_roundtrip_inhabited :
+  match dec_dtz (VTup [VInt 2016; VInt 366; VInt 86399; VInt 1999999999; VInt (-3600)]) with
+  | Some a => r2_rt a = VTup [VInt 2016; VInt 366; VInt 86399; VInt 1000000000; VInt (-3600)]
+  | None => False end.
+Proof. vm_compute. reflexivity. Qed.
+Print Assumptions C11_roundtrip_inhabited.
+
+(* the specification's own round trip: the reader grammar reads every standard form (all day and
+   month names, one- and two-digit days, years 0000..9999, :60) back as the fields it was written from *)
+Theorem C11_spec_reads_standard_form : forall wd ld lm ly h mi sec neg hh mm,
+  0 <= wd <= 6 -> 1 <= ld <= 31 -> 1 <= lm <= 12 -> 0 <= ly <= 9999 -> 0 <= h <= 99 -> 0 <= mi <= 99 -> 0 <= sec <= 99 ->
+  0 <= hh <= 99 -> 0 <= mm <= 99 ->
+  recognise (std wd ld lm ly h mi sec neg hh mm) = Some (mk_fields (Some wd) ld lm 4 ly h mi (Some sec) (ZNum neg hh mm)).
+Proof. exact recognise_std. Qed.
+Print Assumptions C11_spec_reads_standard_form.
